@@ -341,13 +341,7 @@ def dont_care_call(terms, p, ucv):
 def raise_cls(terms, rep, exc):
     """classification of an exception raised by the implementation on a generated (supported) input"""
     u, p = terms["und"], terms["pay"]
-    cls = dict(und=u["k"], pay=p["k"], rep=rep, list_strike=bool(p.get("as_list", False)))
-    # the one recorded class has no counterpart in M (no Python-float / numpy-scalar distinction there): instead of
-    # "equals the model's faulty value" the suppression requires exactly the recorded exception
-    mirrors = None
-    if u["k"] == "maxperf" and p["k"] == "vanv" and rep == "log" and cls["list_strike"]:
-        mirrors = isinstance(exc, TypeError) and "'float' and 'list'" in str(exc)
-    return cls, mirrors
+    return dict(und=u["k"], pay=p["k"], rep=rep, list_strike=bool(p.get("as_list", False)), exception=type(exc).__name__)
 
 
 # ----------------------------------------------------------------------------- one sequence (C + history oracle)
@@ -409,24 +403,19 @@ def run_sequence(ctx, d, model=True):
             return
         ctx.branches[f"c17.path:{cur}"] += 1
         if not model:
-            if exc is not None and not (cls["und"] == "nth" and cur == "id"):
-                rc, mirrors = raise_cls(terms, cur, exc)
-                ctx.fail("oracle", "c17.raises", prefix, {"raises": f"{type(exc).__name__}: {exc}", "op_index": i}, cls=rc,
-                         mirrors_model=mirrors)
-                if mirrors is not True:
-                    return
+            if exc is not None:
+                ctx.fail("oracle", "c17.raises", prefix, {"raises": f"{type(exc).__name__}: {exc}", "op_index": i},
+                         cls=raise_cls(terms, cur, exc))
+                return
             continue
         # ---- C: the same operation on M
         send_tables(ctx, terms, p)
         mu = parse_val(ctx.lean(f"uv {wl(p['times'])} {wll(p['rows'])} {wll(p['jrows'])} {b01(p['flat'])}"))
         if exc is not None:
             if mu[0] != "err":
-                rc, mirrors = raise_cls(terms, cur, exc)
                 ctx.fail("oracle", "c17.raises", prefix, {"raises": f"{type(exc).__name__}: {exc}", "model": str(mu), "op_index": i},
-                         cls=rc, mirrors_model=mirrors)
-                if mirrors is not True:
-                    return
-                continue
+                         cls=raise_cls(terms, cur, exc))
+                return
             ctx.branches["c17.raises_as_modelled"] += 1
             continue
         ucv = canon(u, is_time)
@@ -797,8 +786,6 @@ def identity_default(ctx, d):
         try:
             nth.append(float(U.value(times=t, path=path, jump_path=jp)))
         except Exception as e:  # noqa
-            if rep == "id":
-                return                                   # reported by the representation-agreement probe
             ctx.fail("oracle", "c17.raises", d, {"raises": f"{type(e).__name__}: {e}"}, cls=dict(und="nth", pay="-", rep=rep))
             return
     if nth != sorted(expected) or any(a > b for a, b in zip(nth, nth[1:])):
@@ -816,10 +803,7 @@ def identity_notional(ctx, d):
         v1 = np.atleast_1d(np.asarray(eval_path(one, terms, p)[1], dtype=float))
         vn = np.atleast_1d(np.asarray(eval_path(many, terms, p)[1], dtype=float))
     except Exception as e:  # noqa
-        if terms["und"]["k"] == "nth" and p["rep"] == "id":
-            return
-        rc, mirrors = raise_cls(terms, p["rep"], e)
-        ctx.fail("oracle", "c17.raises", d, {"raises": f"{type(e).__name__}: {e}"}, cls=rc, mirrors_model=mirrors)
+        ctx.fail("oracle", "c17.raises", d, {"raises": f"{type(e).__name__}: {e}"}, cls=raise_cls(terms, p["rep"], e))
         return
     if v1.shape != vn.shape or not all(feq(b, terms["notional"] * a, abs(terms["notional"] * a)) for a, b in zip(v1, vn)):
         ctx.fail("oracle", "c17.identity.notional", d, {"notional_1": v1.tolist(), "notional_n": vn.tolist()}, cls={})
@@ -849,13 +833,8 @@ def rep_agreement(ctx, d):
     bad = [r for r in res if isinstance(res[r], Exception)]
     if bad:
         detail = {r: (f"raises {type(v).__name__}: {v}" if isinstance(v, Exception) else repr(v)) for r, v in res.items()}
-        if uk == "nth" and bad == ["id"]:
-            ctx.lean(f"new {und_wire(terms['und'])} fc:0 1")
-            mirrors = ctx.lean(f"uv {wl(spot['times'])} {wll(spot['rows'])} {wll(spot['jrows'])} 0") == "err"
-            ctx.fail("oracle", "c17.rep_agree", d, detail, cls=dict(und=uk, raises="id"), mirrors_model=mirrors)
-        else:
-            rc, mirrors = raise_cls(terms, bad[0], res[bad[0]])
-            ctx.fail("oracle", "c17.raises", d, detail, cls=rc, mirrors_model=mirrors)
+        # one representation has a value and the other raises: the two do not agree on this spot path
+        ctx.fail("oracle", "c17.rep_agree", d, detail, cls=dict(raise_cls(terms, bad[0], res[bad[0]]), raises="+".join(bad)))
         return
     is_time = uk in TIME_UNDS
     a, b = canon(res["id"][0], is_time), canon(res["log"][0], is_time)
